@@ -1,0 +1,21 @@
+//go:build verif
+
+package core
+
+// Verification hook for property C06 (cycle detection). Add-only; compiled only with -tags verif.
+
+// VerifC06Resolve records dep as a resolved dependency of target (what resolveOneDependency
+// does once the dependency's target is known). Calling it twice adds the dependency twice.
+func VerifC06Resolve(target, dep *BuildTarget) {
+	target.resolveDependency(dep.Label, dep)
+}
+
+// VerifC06Check runs one pass of the unexported cycleDetector over graph. It returns whether a
+// cycle was reported and the reported errCycle.Cycle.
+func VerifC06Check(graph *BuildGraph) (bool, []*BuildTarget) {
+	c := &cycleDetector{graph: graph}
+	if err := c.Check(); err != nil {
+		return true, err.Cycle
+	}
+	return false, nil
+}
